@@ -12,7 +12,7 @@ def run(ctx):
     ctx.repro_attempts = 6   # order- and schedule-dependent misbehaviour is retried in fresh processes
     ctx.assumptions += ["in-package access to allowerContext through the build-time overlay accessor VerifChecker"]
     ctx.exhaustive = True
-    ctx.notes["rule"] = ("all check sequences of length MaxLen over the 17-step pool of Checker.tla per version; "
+    ctx.notes["rule"] = ("all check sequences of length MaxLen over the 21-step pool of Checker.tla per version; "
                          "plus metamorphic variants of every scenario of the Auth_gen families member_self, "
                          "member_restricted, member_other, member_tpi, generic, structure")
     r = ctx.tlc("Checker_gen", "Checker_gen_%s.cfg" % ctx.tier, timeout=1500)
